@@ -21,4 +21,24 @@ def c05 (args : List String) : String :=
     | _, _ => id ++ " bad-op"
   | _ => "bad-op"
 
+/-- `c05p <id> <d> <panicAt> ; s0 … ; v0 …` → same output format: the conditional fails (once) when asked for call number
+    `panicAt`; the chain has then completed `panicAt / d` sweeps and refreshed the first `panicAt % d` coordinates of the
+    next one (`sweepUpTo`), keeps that state, and afterwards performs one complete sweep. -/
+def c05p (args : List String) : String :=
+  match args with
+  | id :: d :: pa :: rest =>
+    match d.toNat?, pa.toNat?, splitAt' ";" rest with
+    | some d, some pa, [_, s0, script] =>
+      -- the scripted conditional cycles through its script (`script[k % len]`)
+      let samp : Nat → Nat → List String → String × Nat := fun k _ _ => (script.getD (k % script.length) "OOS", k + 1)
+      let fmt (l : List (Nat × List String)) := l.map fun e => toString e.1 ++ ":" ++ ",".intercalate e.2
+      let (st, k, log) := (List.range (pa / d)).foldl (fun (acc : List String × Nat × List String) _ =>
+        let r := gibbsStep samp acc.2.1 acc.1
+        (r.state, r.cond, acc.2.2 ++ fmt r.log)) (s0, 0, [])
+      let part := sweepUpTo samp k st (pa % d)
+      let fin := gibbsStep samp part.cond part.state
+      id ++ " " ++ join (log ++ fmt part.log ++ fmt fin.log) ++ " # " ++ ",".intercalate fin.state ++ " # " ++ toString fin.cond
+    | _, _, _ => id ++ " bad-op"
+  | _ => "bad-op"
+
 end MiniMcmcVerif.Driver
